@@ -234,6 +234,18 @@ CHECKS = {
              "resolved value cannot be checked; values without spaces",
         technique="TLA+ reference conflict-queue spec + TLC trace validation; TLC-generated histories",
         design="DESIGN.md §5 C13"),
+    "C18": dict(
+        level="model_checking",
+        text="The C06 histories (sample of the NunDisk transition cover + seeded random ones, all three "
+             "conflict strategies) run with NUN_STORAGE_STRATEGY = s3 and s3_patition (1, 3, 10 partitions) "
+             "against an in-process S3-compatible stub (PutObject / GetObject / ListObjectsV2 over tiny_http), "
+             "also with the n-th PutObject failing once or always; TLC validates each trace against the same "
+             "reference as the disk strategy (Trace_Restore: dump after restart = dump at the last completed "
+             "snapshot incl. id and strategy; a failing upload must end the snapshot run with a report).",
+        note="stub has strong read-after-write consistency and ignores signatures / checksums; the SDK's "
+             "internal retries are opaque; one harness process per configuration; histories are samples",
+        technique="TLA+ reference (same as disk) + TLC trace validation of real runs against an S3 stub with fault injection",
+        design="DESIGN.md §5 C18"),
 }
 
 NOT_YET = "check not built yet (build in progress; see DESIGN.md §8 build order)"
